@@ -255,9 +255,9 @@ class KeyConverter:
         try:
             public_key_numbers = private_key.public_key().public_numbers()
 
-            # Make sure that if bit length is not aligned to 8, full bytes will be used
-            x_byte_length = (public_key_numbers.x.bit_length() + 7) // 8
-            y_byte_length = (public_key_numbers.y.bit_length() + 7) // 8
+            # Coordinates have a fixed width defined by the curve (leading zero bytes must be kept);
+            # make sure that if bit length is not aligned to 8, full bytes will be used
+            x_byte_length = y_byte_length = (private_key.curve.key_size + 7) // 8
 
             # Convert the numbers into bytes
             x_bytes = public_key_numbers.x.to_bytes(length=x_byte_length, byteorder="big")
